@@ -8,7 +8,7 @@ D=$(mktemp -d /tmp/seedrun.XXXXXX)
 mkdir -p "$D/repo" && cp -r /repo/gfapy "$D/repo/" && (cd "$D/repo" && patch -p1 -s < "$PATCH") || { echo "patch failed"; rm -rf "$D"; exit 3; }
 cd /verif
 for p in $PROPS; do
-  out=$(VERIF_REPO="$D/repo" ./check $p 2>&1 | grep -v "^WARNING conda"); code=$?
+  out=$(VERIF_REPO="$D/repo" VERIF_EVIDENCE_DIR="$D/evidence" ./check $p 2>&1 | grep -v "^WARNING conda"); code=$?
   echo "$out" | grep -E "^(VIOLATION|UNDECIDED|CHECKER-BROKEN)" | head -4 | cut -c1-220
   echo "$out" | grep "^SUMMARY" | sed 's/^SUMMARY //' | cut -c1-200
 done
